@@ -271,15 +271,49 @@ def _build_probe(
             `assign` is still applied, because context updates are part of the
             computed next state rather than an external side effect.
             """
-            from .actions import ASSIGN, resolve_builtin
+            from .actions import (
+                ASSIGN,
+                CHOOSE,
+                ENQUEUE_ACTIONS,
+                PURE,
+                RAISE,
+                resolve_builtin,
+            )
 
             for action_def in actions or []:
                 recorded.append(action_def)
-                if resolve_builtin(action_def.type) == ASSIGN:
+                # 🧑‍💻 A user action of the same name shadows the built-in,
+                #    exactly as in the interpreters; it is only reported.
+                if action_def.type in self.machine.logic.actions:
+                    continue
+                canonical = resolve_builtin(action_def.type)
+                if canonical == ASSIGN:
                     self._apply_assign(
                         self._resolve_params(action_def.params, event) or {},
                         event,
                     )
+                elif canonical in (PURE, CHOOSE, ENQUEUE_ACTIONS):
+                    # 🌳 These expand into further actions, which are part
+                    #    of the step: report (and apply) them as well.
+                    followups = self._collect_builtin_followups(
+                        canonical, action_def, event
+                    )
+                    self._execute_actions(
+                        [ActionDefinition(f) for f in followups], event
+                    )
+                elif canonical == RAISE:
+                    # 📨 A raised event belongs to the same macrostep. It is
+                    #    queued and processed after the current event; a
+                    #    delayed raise needs a timer and is only reported.
+                    params = (
+                        self._resolve_params(action_def.params, event) or {}
+                    )
+                    if not self._resolve_delay(params.get("delay"), event):
+                        self.send(
+                            self._resolve_event_spec(
+                                params.get("event"), event
+                            )
+                        )
 
         def _schedule_state_tasks(self, state: Any) -> None:
             """Suppresses timers and invoked services entirely."""
